@@ -624,7 +624,7 @@ def run(ctx):
     elif scale < 1:
         bounds = dict(items=4, depth=3, scopes=4, extras=2, units=units)
     else:
-        bounds = dict(items=5, depth=4, scopes=5, extras=2, units=units)
+        bounds = dict(items=5, depth=4, scopes=5, extras=1, units=units)      # 286 620 states
     if os.environ.get('C18_SKIP_EXHAUSTIVE'):      # development knob (mutation runs): the exhaustive
         bounds = dict(items=3, depth=2, scopes=3, extras=1, units=[4])
         ctx.notes.append('C18_SKIP_EXHAUSTIVE set: exhaustive run reduced to %s' % bounds)
@@ -639,6 +639,14 @@ def run(ctx):
     ctx.coverage['exhaustive'] = True
     ctx.log('exhaustive: %d distinct states, %.0fs' % (res.distinct, res.wall))
 
+    if not quick and not os.environ.get('C18_SKIP_EXHAUSTIVE'):
+        b2 = dict(items=4, depth=3, scopes=4, extras=2, units=units)
+        r0 = run_tlc('Nesting', write_cfg(ctx, 'mc2.cfg', invs=['DesignMeetsReference'], **b2), workers=16,
+                     timeout=6000)
+        ctx.add_tlc(r0, 'Design|=Reference exhaustive %s' % b2)
+        if r0.violated:
+            raise MachineryError('Nesting.tla: %s violated:\n%s' % (r0.violated, r0.trace[-1:]))
+        ctx.log('exhaustive (two extras): %d distinct states, %.0fs' % (r0.distinct, r0.wall))
     small = dict(items=3, depth=2, scopes=3, extras=1, units=[4])
     r1 = run_tlc('Nesting', write_cfg(ctx, 'hint.cfg', invs=['HintOK'] + INVS, **small), workers=4, timeout=1200)
     ctx.add_tlc(r1, 'separate invariants + scan-hint equivalence %s' % small)
@@ -672,16 +680,21 @@ def run(ctx):
                   and (tab[e['got'] - 1]['hl'], tab[e['got'] - 1]['hc']) <= (e['l'], e['c'])
                   < (tab[e['got'] - 1]['bl'], tab[e['got'] - 1]['bc'])]
             if not hs:
-                raise MachineryError('model drift: HeaderSelf counterexample not reproduced by the code:\n' + src)
-            ctx.coverage['header_self_confirmed_on_code'] = hs[0]
+                ctx.drift({'what': 'HeaderSelf counterexample of the Design is not reproduced by the code',
+                           'source': src})
+            else:
+                ctx.coverage['header_self_confirmed_on_code'] = hs[0]
     _, rej = judge(ctx, cex_traces, 'Trace_Nesting counterexample of CtxStrict on the real code')
     if not any(r[2][0] == 'ctx' and r[2][2] in KNOWN_SHAPES for r in rej):
-        raise MachineryError('model drift: the CtxStrict counterexample is not reproduced by the real code:\n'
-                             + cex_srcs[0])
+        # the code no longer shows the modelled deviation (e.g. it was fixed): the property holds there;
+        # the Design is out of date -> drift, not a failure
+        ctx.drift({'what': 'CtxStrict counterexample of the Design is not reproduced by the code '
+                           '(deviation fixed? update Nesting.tla and known_findings.d/C18.json)',
+                   'source': cex_srcs[0]})
     report_rejects(ctx, rej, cex_traces, cex_wheres, cex_srcs, 'TLC counterexample of CtxStrict')
 
     # ---- 2. emitted cases -> replay (spec -> code): a BFS slice of small programs + simulation walks
-    mod = 5 if quick else (17 if scale < 1 else 7)
+    mod = 5 if quick else (67 if scale < 1 else 23)
     eb = dict(items=3, depth=2, scopes=3, extras=1, units=units) if quick else \
         dict(items=4, depth=3, scopes=4, extras=2, units=units)
     cfg = write_cfg(ctx, 'emit.cfg', mod=mod, rem=ctx.seed % mod, invs=[], emit=True, **eb)
@@ -689,7 +702,7 @@ def run(ctx):
     ctx.add_tlc(res, 'case emission slice %d mod %d %s' % (ctx.seed % mod, mod, eb))
     cs = cases(res)
     sb = dict(items=7, depth=4, scopes=6, extras=3, units=units)
-    nsim = 60 if quick else (400 if scale < 1 else 4000)
+    nsim = 60 if quick else (250 if scale < 1 else 800)
     cfg = write_cfg(ctx, 'sim.cfg', mod=1, rem=0, invs=['DesignMeetsReference'], emit=True, **sb)
     res = run_tlc('Nesting', cfg, workers=1, timeout=6000, simulate='num=%d' % nsim, depth=8, seed=ctx.seed)
     ctx.add_tlc(res, 'simulation walks with emission %s' % sb)
@@ -745,7 +758,7 @@ def run(ctx):
     # ---- 3. corpus (code -> spec)
     files = jutil.corpus_files(limit=30 if quick else (60 if scale < 1 else None), rng=ctx.rng)
     ctx.log('corpus: %d files' % len(files))
-    recs = jutil.pmap(record_file, [(f, 150 if quick else 0, 100 if quick else 1500, ctx.seed + i)
+    recs = jutil.pmap(record_file, [(f, 150 if quick else (400 if scale < 1 else 1200), 100 if quick else 600, ctx.seed + i)
                                     for i, f in enumerate(files)], chunksize=1)
     jutil.check_worker_errors(recs)
     ctraces, cwheres, csrcs = [], [], []
